@@ -204,7 +204,11 @@ func expandItems(target Schema, parentRefs []string, resolver *schemaLoader, bas
 func expandSchema(target Schema, parentRefs []string, resolver *schemaLoader, basePath string) (*Schema, error) {
 	if target.Ref.String() == "" && target.Ref.IsRoot() {
 		newRef := normalizeRef(&target.Ref, basePath)
-		target.Ref = *newRef
+		if resolver.options.AbsoluteCircularRef {
+			target.Ref = *newRef
+		} else {
+			target.Ref = denormalizeRef(newRef, resolver.context.basePath, resolver.context.rootID)
+		}
 		return &target, nil
 	}
 
